@@ -78,6 +78,8 @@ type engineX struct {
 	// lateFailed (set by afterDecode): the listener that was to come up after the config was decoded could not bind its
 	// reserved address (another process of the shared machine took the port in between): nothing was observed
 	lateFailed *bool
+	// ts (round 6): the recording aggregator that also notes when each sample arrived (schedx runs)
+	ts *r6Rec
 }
 
 func runEngine(yamlConf string, timeout time.Duration, debug bool) shot.Result {
@@ -95,9 +97,16 @@ func runEngineX(yamlConf string, timeout time.Duration, debug bool, x engineX) s
 		return shot.Result{Class: "config:" + clipWords(reDigits.ReplaceAllString(err.Error(), "N"), 100)}
 	}
 	rec := &shot.Rec{}
+	if x.ts != nil {
+		rec = &x.ts.Rec
+	}
 	if x.phout == "" {
 		for i := range conf.Engine.Pools {
-			conf.Engine.Pools[i].Aggregator = rec
+			if x.ts != nil {
+				conf.Engine.Pools[i].Aggregator = x.ts
+			} else {
+				conf.Engine.Pools[i].Aggregator = rec
+			}
 		}
 	}
 	if x.afterDecode != nil {
@@ -114,6 +123,9 @@ func runEngineX(yamlConf string, timeout time.Duration, debug bool, x engineX) s
 	ctx, cancel := context.WithCancel(context.Background())
 	defer cancel()
 	done := make(chan error, 1)
+	if x.ts != nil {
+		x.ts.t0 = time.Now() // before the engine (hence the schedule) starts: measured lateness >= real lateness
+	}
 	go func() { done <- eng.Run(ctx) }()
 	var class string
 	select {
